@@ -380,6 +380,16 @@ class Lowerer:
                 self.rule('explicit cast to narrower/other-signedness unsigned -> modular truncation')
                 if st.name in signed: return '((%s)(((long long)(%s)) & %s))' % (t.name, self.e(sub), masks[t.name])
                 return '((%s)(((unsigned long long)(%s)) & %s))' % (t.name, self.e(sub), masks[t.name].replace('ll', 'ull'))
+        if ck == 'IntegralCast':
+            # an IMPLICIT conversion of a signed value to an unsigned type that is at least as wide is well-defined (modular, C++ [conv.integral])
+            # and loses nothing that a later comparison could not see: written as sign-extension + mask, not watched by --conversion-check.
+            # (implicit NARROWING conversions stay plain casts and stay watched)
+            t = ct(n); st = ct(sub)
+            width = {'char': 8, 'signed char': 8, 'short': 16, 'int': 32}
+            tw = {'unsigned int': (32, '0xffffffffll'), 'unsigned short': (16, '0xffffll')}
+            if t.name in tw and st.name in width and width[st.name] <= tw[t.name][0] and not t.suf and not st.suf:
+                self.rule('implicit signed -> wider-or-equal unsigned conversion -> sign extension + mask (well-defined)')
+                return '((%s)(((long long)(%s)) & %s))' % (t.name, self.e(sub), tw[t.name][1])
         if ck in ('IntegralCast', 'IntegralToFloating', 'FloatingToIntegral', 'FloatingCast'):
             t = ct(n)
             if self.is_enum(t) and not t.is_builtin:
@@ -500,7 +510,7 @@ class Lowerer:
             return self.addr(sub)
         if op == '*':
             t = ct(sub)
-            if t.name == 'cstr': return 'cstr_deref(%s)' % self.e(sub)
+            if t.name == 'cstr' and not t.suf.count('*'): return 'cstr_deref(%s)' % self.e(sub)
             return '(*%s)' % self.e(sub)
         x = self.e(sub)
         if n.get('isPostfix'): return '(%s%s)' % (x, op)
@@ -510,7 +520,7 @@ class Lowerer:
         ta, tb = ct(a), ct(b)
         if ta.name == 'cstr' and not ta.suf.count('*') and op in ('+', '-') and tb.is_builtin:
             return 'cstr_add(%s, %s(%s))' % (self.e(a), '-' if op == '-' else '', self.e(b))
-        if ta.name == 'cstr' and op in ('==', '!='):
+        if ta.name == 'cstr' and not ta.suf.count('*') and op in ('==', '!='):
             return '(%scstr_eq(%s, %s))' % ('!' if op == '!=' else '', self.e(a), self.e(b))
         if op == ',':
             return '(%s, %s)' % (self.e(a), self.e(b))
@@ -762,6 +772,14 @@ class Lowerer:
         if lit is not None: return lit
         if d['kind'] != 'DeclRefExpr': raise Unsupported('operator call callee')
         rd = d['referencedDecl']; op = rd['name']
+        if op == 'operator()' and args:
+            obj = args[0]
+            while obj.get('kind') in ('ImplicitCastExpr', 'ParenExpr'): obj = obj['inner'][0]
+            lv = getattr(self, 'lambda_vars', {}).get((obj.get('referencedDecl') or {}).get('id')) if obj.get('kind') == 'DeclRefExpr' else None
+            if lv:
+                lname, caps = lv
+                self.cur.callees.add(lname)
+                return '%s(%s)' % (lname, ', '.join([c[2] for c in caps] + [self.arg(a) for a in args[1:]]))
         f = self.ix.fn_by_id.get(rd['id'])
         a0 = args[0]; t0 = ct(a0)
         if f is not None:
@@ -881,7 +899,11 @@ class Lowerer:
             raise Unsupported('constructor of %s not found (line %s)' % (t.name, src_line(n)))
         cname = self.fn_cname(ctor)
         params = [p for p in ctor.get('inner', []) if p.get('kind') == 'ParmVarDecl']
-        cargs = [target] + [self.arg(a, ct(params[i]) if i < len(params) else None, True) for i, a in enumerate(args)]
+        cargs = [target]
+        for i, a in enumerate(args):
+            self.default_arg_src = self.param_with_default(ctor, i) if a.get('kind') == 'CXXDefaultArgExpr' else None
+            cargs.append(self.arg(a, ct(params[i]) if i < len(params) else None, True))
+        self.default_arg_src = None
         self.cur.callees.add(cname); self.rule('repo-ctor-call')
         return '%s(%s)' % (cname, ', '.join(cargs))
 
@@ -1076,7 +1098,8 @@ class Lowerer:
             cparams.append(decl); caps.append((nm, decl, argexpr))
         for p in params:
             cparams.append(self.param_decl(p))
-        rt = CType(call['type']['qualType'].split('(')[0].strip())
+        qt_ = call['type']['qualType']
+        rt = CType(qt_.rsplit('->', 1)[1].strip() if ('->' in qt_ and qt_.strip().startswith('auto')) else qt_.split('(')[0].strip())
         fi_saved = self.cur
         info = FnInfo(lname, call, self.cur.qname + '::<lambda L%s>' % line)
         info.line = line; info.file = fi_saved.file
@@ -1172,14 +1195,32 @@ class Lowerer:
             text = ind + 'if (!%s_initialised) { %s = %s; %s_initialised = 1; }\n' % (g, g, self.e(init[0]), g)
             return self.with_temps(mark2, ind, text)
         if static: self.rule('static-local with call-independent initialiser -> plain local (same value on every call; init guard dropped)')
+        qt_ = (v.get('type') or {}).get('qualType', '')
+        refarr = re.search(r'^(.*?)\s*\(&\)\[(\d+)\]$', qt_)
+        if refarr and init:
+            ets = refarr.group(1).strip()
+            etn = 'cstr' if re.match(r'^(const )?char \*\s*(const)?$', ets) else CType(ets).name
+            self.rule('reference to array -> pointer to its first element')
+            return ind + '%s *%s = %s;\n' % (etn, name, self.e(init[0]))
         arr = re.search(r'\[(\d+)\]$', t.core_cxx)
         if arr:
-            et = CType(t.core_cxx[:arr.start()].strip())
-            if static:
-                self.static_locals.append('static %s %s_%s[%s];' % (et.name, self.cur.cname, name, arr.group(1)))
-                self.renames[v['id']] = '%s_%s' % (self.cur.cname, name)
-                return ''
-            return ind + '%s %s[%s];\n' % (et.name, name, arr.group(1))
+            ets = t.core_cxx[:arr.start()].strip()
+            etn = 'cstr' if re.match(r'^(const )?char \*\s*(const)?$', ets) else CType(ets).name
+            il = init[0] if init else None
+            while il is not None and il['kind'] in ('ExprWithCleanups',): il = il['inner'][0]
+            if il is not None and il['kind'] == 'InitListExpr':
+                # (static or automatic) array with a call-independent brace initialiser -> initialised local array
+                mark3 = len(self.temps)
+                try:
+                    elems = [self.e(x) for x in il.get('inner', [])]
+                    if len(self.temps) == mark3 and len(elems) == int(arr.group(1)):
+                        self.rule('local array with brace initialiser -> initialised C array')
+                        return ind + '%s %s[%s] = { %s };\n' % (etn, name, arr.group(1), ', '.join(elems))
+                except Unsupported:
+                    pass
+                del self.temps[mark3:]
+                self.rule('local array initialiser not lowered -> elements arbitrary')
+            return ind + '%s %s[%s];\n' % (etn, name, arr.group(1))
         if static and t.is_builtin and init and init[0]['kind'] in ('CXXBoolLiteralExpr', 'IntegerLiteral'):
             g = '%s_%s' % (self.cur.cname, name)
             self.static_locals.append('static %s %s = %s;' % (t.name, g, self.e(init[0])))
@@ -1220,6 +1261,13 @@ class Lowerer:
                 cname = '%s_ctor' % t.name; self.note_extern(cname, v)
                 return ind + '%s = %s();\n' % (self.value_decl(t, name), cname)
             return ind + '%s;\n' % self.value_decl(t, name)
+        lam = init[0]
+        while lam.get('kind') in ('ExprWithCleanups', 'CXXConstructExpr', 'MaterializeTemporaryExpr', 'ImplicitCastExpr', 'CXXBindTemporaryExpr') and lam.get('inner'): lam = lam['inner'][0]
+        if lam.get('kind') == 'LambdaExpr':
+            lname, caps = self.lower_lambda(lam)
+            self.lambda_vars = getattr(self, 'lambda_vars', {}); self.lambda_vars[v['id']] = (lname, caps)
+            self.rule('local lambda variable -> direct calls of the lowered lambda function')
+            return ind + '/* lambda %s = %s */\n' % (name, lname)
         text = ind + '%s = %s;\n' % (self.value_decl(t, name), self.e(init[0]))
         text = self.raii(v, t, name, ind, text)
         return self.with_temps_decl(mark, ind, text)
@@ -1355,7 +1403,20 @@ class Lowerer:
         self.loop_depth.append(len(self.raii_stack))
         b = self.blockify(body, ind)
         self.loop_depth.pop()
-        out = '%sdo\n%s%s\n%swhile (%s);\n' % (ind, ind + slot + '\n', b, ind, self.e(cond))
+        def binds_continue(x, top=True):
+            k = x.get('kind')
+            if k == 'ContinueStmt': return True
+            if not top and k in ('ForStmt', 'WhileStmt', 'DoStmt', 'CXXForRangeStmt', 'LambdaExpr'): return False
+            return any(binds_continue(c, False) for c in x.get('inner', []) if isinstance(c, dict))
+        mark_c = len(self.temps)
+        ce = self.e(cond)
+        if not binds_continue(body) and len(self.temps) == mark_c:
+            # do S while (c)  ==  for (;;) { S; if (!(c)) break; }   (no 'continue' binds to this loop): the back edge is then
+            # taken only when the loop continues, which is where CBMC checks the invariant step and the decreases clause
+            self.rule('do-while -> for(;;) { body; if (!cond) break; }')
+            out = '%sfor (;;)\n%s\n%s{\n%s%s    if (!(%s)) break;\n%s}\n' % (ind, ind + slot, ind, b, ind, ce, ind)
+            return self.with_temps(mark, ind, out)
+        out = '%sdo\n%s%s\n%swhile (%s);\n' % (ind, ind + slot + '\n', b, ind, ce)
         return self.with_temps(mark, ind, out)
     def s_ForStmt(self, n, ind):
         init, _condvar, cond, inc, body = n['inner']
@@ -1455,11 +1516,11 @@ class Lowerer:
         for p in f.get('inner', []):
             if p.get('kind') == 'ParmVarDecl':
                 params.append(self.param_decl(p))
-        rts = f['type']['qualType'].split('(')[0].strip()
+        rts = f['type']['qualType'].replace('(anonymous namespace)::', '').split('(')[0].strip()
         if kind in ('CXXConstructorDecl', 'CXXDestructorDecl'): rts = 'void'
         rt = CType(rts, None)
         dq = f['type'].get('desugaredQualType')
-        if dq: rt = CType(rts, dq.split('(')[0].strip())
+        if dq: rt = CType(rts, dq.replace('(anonymous namespace)::', '').split('(')[0].strip())
         self.ret_ref = rt.is_ref
         self.ret_ctype = self.ctype_decl(rt)
         body = [c for c in f.get('inner', []) if c.get('kind') == 'CompoundStmt']
